@@ -363,12 +363,97 @@ func pick3(rng *rand.Rand) int { return []int{100, 300, -10, 0, 1000}[rng.Intn(5
 func checkC07(r *verdict.Run) {
 	r.Rule = "(1) lifetime-phase matrix: every command template x key type x {deadline 100 s ahead, deadline passed but object still stored (PEXPIREAT 1 / EXPIRE -1 / EXPIREAT 1), operand keys expired}: an expired key must behave as missing for every command, TTL preserved/cleared per command; " +
 		"(2) EXPIRE/PEXPIRE/EXPIREAT/PEXPIREAT x {none,NX,XX,GT,LT} x {no deadline, later, earlier} x {positive, zero, negative} and TTL/PTTL/EXPIRETIME/PEXPIRETIME/PERSIST/GETEX/SET option sequences; " +
+		"(2b) every deadline-setting form (EXPIRE family, SET/GETEX EX/PX/EXAT/PXAT, SETEX, PSETEX) with extreme values around 292 years, year 9999, 2^53 ms and the int64 limits, positive and negative: stored or refused as Redis does, never a vanished or persistent key; " +
 		"(3) transition batches: keys of 4 types with 120-400 ms TTLs read by rotating commands across the deadline. All against the reference model with an interval clock: an observation is judged only when its [send, receive] interval lies entirely before or after the deadline interval (no wall-clock tolerance constants). " +
 		"distinct = matrix cells + (command, flag, state) tuples + transition reads"
 	c07PhaseMatrix(r)
 	c07ExpireSemantics(r)
+	c07ExtremeTimes(r)
 	c07Transition(r, tierPick(r, 16, 200))
 	runDiffSequences(r, tierPick(r, 100, 3000), func(rng *rand.Rand) int { return 40 + rng.Intn(40) },
 		[]string{"e0", "e1", "e2", "e3"}, [][]string{{"SET", "e0", "v", "EX", "100"}, {"RPUSH", "e1", "a"}}, c07Gen)
 	r.Assume("client and server share one machine clock (same host); an observation whose interval overlaps a deadline interval is skipped (counted as ambiguous_time_*), never judged")
+}
+
+// c07ExtremeTimes: every deadline-setting form with values around the places where an implementation's time
+// arithmetic can wrap: 292 years (int64 nanoseconds), year 9999, 2^53 ms, int64 milliseconds, and the negative
+// counterparts. Redis either stores the deadline or answers "invalid expire time"; a key must never vanish or
+// become persistent because of an overflow.
+func c07ExtremeTimes(r *verdict.Run) {
+	c, err := startChild(false)
+	if err != nil {
+		r.Inconclusive("cannot start child")
+		return
+	}
+	defer c.Stop()
+	const maxI = int64(9223372036854775807)
+	nowS := time.Now().Unix()
+	secs := []int64{9223372036, 9223372037, 100000000000, 251000000000, 260000000000, 9007199254740, 9223372036854775, 9223372036854776, maxI - 1, maxI,
+		-9223372036, -9223372037, -9223372036854775, -9223372036854776, -maxI, -maxI - 1}
+	msecs := []int64{9223372036854, 9223372036855, 100000000000000, 251000000000000000 / 1000, 260000000000000, 9007199254740000, maxI - nowS*1000 - 3600000, maxI - nowS*1000 + 3600000, maxI - 1, maxI,
+		-9223372036855, -9223372036854775, -maxI, -maxI - 1}
+	type form struct {
+		name string
+		mk   func(v string) []string
+		sec  bool
+		neg  bool // negative values are meaningful (EXPIRE family)
+	}
+	forms := []form{
+		{"EXPIRE", func(v string) []string { return []string{"EXPIRE", "k", v} }, true, true},
+		{"PEXPIRE", func(v string) []string { return []string{"PEXPIRE", "k", v} }, false, true},
+		{"EXPIREAT", func(v string) []string { return []string{"EXPIREAT", "k", v} }, true, true},
+		{"PEXPIREAT", func(v string) []string { return []string{"PEXPIREAT", "k", v} }, false, true},
+		{"EXPIRE+XX", func(v string) []string { return []string{"EXPIRE", "k", v, "XX"} }, true, false},
+		{"SET+EX", func(v string) []string { return []string{"SET", "k", "w", "EX", v} }, true, false},
+		{"SET+PX", func(v string) []string { return []string{"SET", "k", "w", "PX", v} }, false, false},
+		{"SET+EXAT", func(v string) []string { return []string{"SET", "k", "w", "EXAT", v} }, true, false},
+		{"SET+PXAT", func(v string) []string { return []string{"SET", "k", "w", "PXAT", v} }, false, false},
+		{"SETEX", func(v string) []string { return []string{"SETEX", "k", v, "w"} }, true, false},
+		{"PSETEX", func(v string) []string { return []string{"PSETEX", "k", v, "w"} }, false, false},
+		{"GETEX+EX", func(v string) []string { return []string{"GETEX", "k", "EX", v} }, true, false},
+		{"GETEX+PX", func(v string) []string { return []string{"GETEX", "k", "PX", v} }, false, false},
+		{"GETEX+EXAT", func(v string) []string { return []string{"GETEX", "k", "EXAT", v} }, true, false},
+		{"GETEX+PXAT", func(v string) []string { return []string{"GETEX", "k", "PXAT", v} }, false, false},
+	}
+	for _, f := range forms {
+		d, err := newDiffEnv(r, c, []string{"k"})
+		if err != nil {
+			r.Inconclusive("infra: " + err.Error())
+			return
+		}
+		d.monitor = "extreme"
+		vals := msecs
+		if f.sec {
+			vals = secs
+		}
+		for _, v := range vals {
+			if v < 0 && !f.neg {
+				continue
+			}
+			for _, pre := range [][]string{{"SET", "k", "v"}, {"SET", "k", "v", "EX", "1000"}} {
+				ok := true
+				step := func(a ...string) {
+					if ok {
+						_, ok = d.step(a)
+					}
+				}
+				step("DEL", "k")
+				step(pre...)
+				got, ok2 := d.step(f.mk(strconv.FormatInt(v, 10)))
+				ok = ok && ok2
+				step("EXISTS", "k")
+				step("PTTL", "k")
+				step("TTL", "k")
+				step("PEXPIRETIME", "k")
+				step("EXPIRETIME", "k")
+				step("GET", "k")
+				if !ok {
+					return
+				}
+				r.Eval(1)
+				r.Distinct(fmt.Sprintf("extreme/%s/%d/%s/%s", f.name, v, pre[len(pre)-1], model.Class(got)))
+			}
+		}
+		d.close()
+	}
 }
